@@ -71,6 +71,8 @@ func (env *SpecEnv) ghostCall(name string, x *ast.CallExpr) (Val, bool) {
 		cp := layout(tByte)[0]
 		h := vc.heapIn(env.st, heapNameFor(tByte, cp), heapSort(cp))
 		return mkVal(tByte, Select(Select(h, a), i)), true
+	case "nextarr":
+		return intVal(vc.heapIn(env.st, "$nextArr", SInt)), true
 	case "tracelen":
 		return intVal(vc.heapIn(env.st, "$TraceLen", SInt)), true
 	case "ev":
